@@ -3,3 +3,4 @@ pub mod soup;
 pub mod util;
 pub mod paths;
 pub mod texts;
+pub mod lua_ast;
